@@ -24,6 +24,8 @@ from fractions import Fraction as Fr
 import lib
 import translate_stats
 
+# signature classes of the two defects repaired in /repo (2370b33, 437ee40); no longer listed as known:
+# their return is a VIOLATION with the concrete input
 SIG_COMB = "comb:float-true-division:n>=57"
 SIG_CENTRAL_HI = "centrals:order>=57:comb-float-division"
 SIG_CUMULANT_HI = "cumulants:order>=58:comb-float-division"
@@ -207,7 +209,7 @@ def part_comb(st):
         diff = [(g, v, real[g]) for g, v in zip(grid, vals) if real.get(g) != v]
         st.corr(not diff, "translated comb (exact model of int/int true division) differs from the real comb",
                 {"first": diff[:3]})
-        ctx.sample({"tie": "Coq comb model == real comb", "points": len(grid), "includes_wrong_values": True,
+        ctx.sample({"tie": "Coq comb model == real comb", "points": len(grid),
                     "example": {"n": 57, "k": 25, "both": real.get((57, 25))}})
     return real
 
@@ -221,7 +223,7 @@ def part_conversions(st):
     laws = [[(Fr(1, 2), Fr(0)), (Fr(1, 3), Fr(1)), (Fr(1, 6), Fr(4))]]
     laws += [rand_law(rng) for _ in range(nlaws)]
     orders = [K if (i % 3 == 0) else rng.randint(2, K) for i in range(len(laws))]
-    # the witness of the refutation theorems: Bernoulli(1/2), 58 moments (real code, every tier)
+    # regression witness of the repaired comb defect: Bernoulli(1/2), 58 moments (real code, every tier)
     laws.append([(Fr(1, 2), Fr(0)), (Fr(1, 2), Fr(1))])
     orders.append(58)
     tasks = [{"kind": "stats_convert", "moments": [fs(m) for m in raw_moments(l, k)]} for l, k in zip(laws, orders)]
@@ -658,8 +660,9 @@ def run(ctx):
     ctx.coverage["trusted_base"] += [
         "harness/translate_stats.py (Python ast -> Gallina, fail-closed subset; .expand()/.simplify()/sympify are "
         "value-preserving identities; dict = insertion-ordered association list; KeyError not modelled)",
-        "Polar.Stats.py_truediv: CPython int/int true division = correctly rounded (half-even) 53-bit quotient, exponent "
-        "range not modelled (OverflowError for n >= 1030) -- cross-checked against the real comb on a grid every run",
+        "int // int is Z.div (floor division); should a float true division reappear in the translated code it is modelled "
+        "by Polar.Stats.py_truediv (correctly rounded 53-bit quotient, exponent range not modelled); the translated comb "
+        "is compared with the real comb on a grid every run",
         "harness oracles: exact Fraction arithmetic; cumulants by log-series of the EGF; tail probabilities by enumeration",
         "parsers of Polar's printed bounds (regular expressions on the CLI output)",
     ]
